@@ -212,7 +212,7 @@ def run(ctx):
         "TryToCopyFrom over overlapping windows is compared byte-for-byte with memmove semantics",
     ]
     stats = vlib.Stats()
-    nmod = ctx.pick(40, 500)
+    nmod = ctx.pick(40, 300)
     rnd = random.Random(ctx.seed * 49979687 + 1)
     root = os.path.join(ctx.tmp, "c20")
     cases = []
